@@ -27,11 +27,11 @@ _ord2ymd = _cal.ord2ymd
 _USE_FIELD_STEPS = False     # measured: nested field-level steps are slower for z3 than independent ord->ymd towers
 
 
-def _lemma_valid(t):
+def _lemma_valid(t, _enabled=False):
     """Hand the solver a proven fact about model-produced dates (kernel obligations 'model lemma' of the
     C15 check: succ/pred/ord2ymd results are valid dates): saves it from re-deriving `day <= days_in_month`
     through nested ite terms every time the repository code asks."""
-    if _sym(*t):
+    if _enabled and _sym(*t):
         eng().assume(AND(t[2] >= 1, t[2] <= _days_in_month(t[0], t[1]), t[1] >= 1, t[1] <= 12))
 
 
